@@ -20,7 +20,7 @@ import sys
 from .. import e2e, guard
 from ..common import Hang, Rng, hx, unhx, watchdog
 from ..runner import Check
-from . import c16_bridge, c16_names, c16_singular
+from . import c16_bridge, c16_hetero, c16_names, c16_singular
 from .c17 import parse_sx, unbound_aliased
 
 # (document, kind, None | failing mechanism) of every end-to-end case of this run: input of the
@@ -805,9 +805,11 @@ def run(ck: Check) -> None:
     guard.campaign(ck, campaign_infer, 600 if quick else 6000)
     guard.campaign(ck, campaign_valid, 600 if quick else 6000)
     guard.campaign(ck, c16_bridge.campaign_bridge, 120 if quick else 1500, sys.modules[__name__])
+    guard.campaign(ck, c16_hetero.campaign_text, 40 if quick else 1200, sys.modules[__name__])
     guard.campaign(ck, c16_names.campaign_member_rename, 300 if quick else 3000)
     del ACCEPT_LOG[:]
     guard.campaign(ck, campaign_documents, 200 if quick else 2500)
+    guard.campaign(ck, c16_hetero.campaign_hetero, 16 if quick else 1500, sys.modules[__name__])
     guard.campaign(ck, c16_names.campaign_selfnamed, 120 if quick else 1500, sys.modules[__name__])
     guard.campaign(ck, c16_singular.campaign_names, 150 if quick else 1500)
     guard.campaign(ck, c16_singular.campaign_singular, 150 if quick else 2000, sys.modules[__name__])
@@ -815,6 +817,7 @@ def run(ck: Check) -> None:
     guard.campaign(ck, campaign_csv_sample, 120 if quick else 1200)
     guard.campaign(ck, c16_bridge.campaign_accepts, list(ACCEPT_LOG))
     guard.campaign(ck, c16_bridge.campaign_v1_boundary, 2 if quick else 3, sys.modules[__name__])
+    ck.search_hooks.append(lambda ck_: c16_hetero.search_hetero(ck_, sys.modules[__name__]))
     ck.search_hooks.append(lambda ck_: c16_names.search_selfnamed(ck_, sys.modules[__name__]))
     ck.search_hooks.append(lambda ck_: c16_singular.search_singular(ck_, sys.modules[__name__]))
     ck.search_hooks.append(search_keys)
